@@ -44,7 +44,7 @@ def strat():
         C = draw(st.integers(3, 8))
         bs = draw(st.sampled_from([1, 2, 4]))
         limit = 480 * bs
-        n = draw(st.integers(0, 12))
+        n = draw(st.integers(0, 12)) if draw(st.integers(0, 11)) else draw(st.integers(30, 60))        # a whole page of lines
         crops = []
         for i in range(n):
             kind = draw(st.sampled_from(["short", "short", "mid", "same", "long", "tiny"]))
